@@ -456,13 +456,26 @@ impl Sim {
                 CbKind::WorkerLost { worker, running, reason } => {
                     self.mon.worker_lost(*worker, running, reason.is_failure());
                     self.mon.events(&cb.events);
+                    self.mon.worker_lost_jobs(*worker, running, &cb.jobs);
                 }
                 CbKind::Error { task, ret, .. } => {
                     self.mon.events(&cb.events);
                     self.mon.max_fails(*task, ret, &cb.jobs);
+                    if !ret.is_empty() {
+                        self.world.pump_server_messages();
+                        let executing = self.world.running_tasks();
+                        let pending: Vec<(u32, Vec<TaskId>)> = self
+                            .world
+                            .workers
+                            .iter()
+                            .flat_map(|(id, w)| w.to_worker.iter().filter_map(|m| if let ToWorkerMessage::CancelTasks(c) = m { Some((*id, c.ids.clone())) } else { None }))
+                            .collect();
+                        self.mon.abort_stops(ret, &executing, &pending);
+                    }
                 }
                 _ => self.mon.events(&cb.events),
             }
+            self.mon.announced(&cb.jobs);
         }
         self.core_flush(core_ops, &cbs);
         self.after_action();
@@ -717,6 +730,8 @@ impl Sim {
                             self.mon.cancel_answered(ts.iter().map(|t| TaskId::new(j, *t)));
                             let mut ts: Vec<u32> = ts.iter().map(|t| t.as_num()).collect();
                             ts.sort();
+                            let snap = snapshot_jobs(&self.world.state_ref);
+                            self.mon.cancel_leaves_nothing(j.as_num(), &snap);
                             format!("canceled {} {}", list(ts.iter()), n)
                         }
                         CancelJobResponse::InvalidJob => "invalid".to_string(),
@@ -759,6 +774,7 @@ impl Sim {
 
     fn job_snapshot(&mut self) {
         let jobs = snapshot_jobs(&self.world.state_ref);
+        self.mon.announced(&jobs);
         let live = self.world.server.task_ids();
         let w = &self.world;
         self.job.snapshot(w, &jobs, Some(&live));
@@ -891,6 +907,11 @@ impl Sim {
                 }
                 if malformed && self.rng.chance(1, 6) {
                     deps.push(if self.rng.chance(1, 2) { id } else { 77 });
+                }
+                // a dependency on a task listed LATER in the same submit (must be refused: the core adds tasks one by
+                // one and treats a dependency it does not know yet as finished)
+                if malformed && i + 1 < n && self.rng.chance(1, 3) {
+                    deps.push(base + i + 1);
                 }
                 deps.dedup();
                 let (td, _) = self.gen_task_desc();
